@@ -19,54 +19,8 @@ func propC08(c *Ctx) {
 
 	// ---- R8.1 -----------------------------------------------------------
 	c.Rule("R8.1", "a failed fetch is never stored", 3)
-	// the getter call: dynamic call of the func-typed parameter, on the caching path
-	var fetch *ssa.Call
-	for _, ci := range callsIn(get) {
-		if call, ok := ci.(*ssa.Call); ok {
-			if p, ok := call.Call.Value.(*ssa.Parameter); ok && p.Parent() == get {
-				// the one whose result is stored (not the nocache pass-through return)
-				if ev := extractOf(call, 0); ev != nil {
-					for _, ref := range *ev.Referrers() {
-						if st, ok := ref.(*ssa.Store); ok {
-							if f, _ := fieldOf(st.Addr); f == fD {
-								fetch = call
-							}
-						}
-					}
-				}
-			}
-		}
-	}
-	if fetch == nil {
-		c.Violation("R8.1", "cache.get/fetch", get.Pos(), "cannot identify the fetch whose result is stored in the segment")
-	} else {
-		e, _ := errResult(fetch)
-		isNil, nonNil := nilTestEdges(e)
-		n := 0
-		allInstrs(get, func(in ssa.Instruction) {
-			st, ok := in.(*ssa.Store)
-			if !ok {
-				return
-			}
-			f, _ := fieldOf(st.Addr)
-			if f == nil || (f != fD && f != fDone) {
-				return
-			}
-			n++
-			good := guardedByEdges(get, st, isNil) && dominatesInstr(fetch, st)
-			if f == fD {
-				good = good && st.Val == extractOf(fetch, 0)
-			}
-			c.Check("R8.1", fmt.Sprintf("cache.get/store-segment.%s#%d", f.Name(), n), st.Pos(), good, "segment state is written only after the fetch returned nil error, with that fetch's result")
-		})
-		okArm := len(nonNil) > 0
-		for _, ed := range nonNil {
-			if g, _ := errorArmLeaves(get, ed, isNil, nil); !g {
-				okArm = false
-			}
-		}
-		c.Check("R8.1", "cache.get/error-arm-returns", fetch.Pos(), okArm, "a failed fetch returns an error (nothing is cached)")
-	}
+	// segment state is written only from a fetch that returned a nil error (shared rule, inlined view of get)
+	checkCacheStoresOnlySuccess(c, "R8.1")
 	// head cache: update only after both error tests in Latest / httpPoll
 	update := w.Fn("jrpc2", "(*NumHash).update")
 	do := w.Fn("jrpc2", "(*Client).do")
